@@ -24,6 +24,7 @@ type PartialFamily struct {
 	RemMode  string // "" every subset | "all" | "none"
 	SetLimit int    // max size of verify/ingest/prune sets (0 = unlimited)
 	Collect  string // when set, violations of this property are collected instead of Prop's
+	Base     uint64 // > 0: started with NewMapPollardFromRoots on an accumulator of Base opaque leaves (TotalRows 63)
 }
 
 type partFrame struct {
@@ -44,7 +45,7 @@ type partModel struct {
 func (m *partModel) AbstractKey() string { return m.s.Key() + "/" + boolKey(m.must) }
 
 func (f *PartialFamily) Root() (*Node, string) {
-	return &Node{Model: &partModel{undoBud: f.UndoBud, frBud: f.FRBud}}, "root"
+	return &Node{Model: &partModel{s: ref.State{Base: f.Base}, undoBud: f.UndoBud, frBud: f.FRBud}}, "root"
 }
 
 func limitSets(sets [][]int, lim int) [][]int {
@@ -68,6 +69,9 @@ func (f *PartialFamily) Ops(n *Node) []Op {
 		for adds := 0; md.s.N()+adds <= f.Nmax; adds++ {
 			if adds == 0 && len(dels) == 0 {
 				continue
+			}
+			if md.s.Total()+uint64(adds) > uint64(1)<<63 {
+				break
 			}
 			idx := make([]int, adds)
 			for i := range idx {
@@ -109,7 +113,7 @@ func (f *PartialFamily) Ops(n *Node) []Op {
 	if md.undoBud > 0 && len(md.stack) > 0 {
 		ops = append(ops, Op{Kind: "undo"})
 	}
-	if md.frBud > 0 && md.s.N() > 0 {
+	if md.frBud > 0 && md.s.Total() > 0 {
 		ops = append(ops, Op{Kind: "fromroots"})
 	}
 	return ops
@@ -123,8 +127,11 @@ type partPayload struct {
 func (f *PartialFamily) run(x *Exec, hist []Op) (*u.MapPollard, *partModel, bool) {
 	mm := u.NewMapPollard(false)
 	mm.TotalRows = f.TR
+	md := &partModel{s: ref.State{Base: f.Base}, undoBud: f.UndoBud, frBud: f.FRBud}
+	if f.Base > 0 {
+		mm = u.NewMapPollardFromRoots(append([]Hash(nil), ref.APILayout(md.s).Roots...), f.Base, false)
+	}
 	m := &mm
-	md := &partModel{undoBud: f.UndoBud, frBud: f.FRBud}
 	name := fmt.Sprintf("MapPollard(partial,TR=%d)", f.TR)
 	for _, op := range hist {
 		L := ref.APILayout(md.s)
@@ -424,6 +431,15 @@ func init() {
 		c.Cov.Bound["A"] = fmt.Sprintf("Nmax=%d undo budget 1, fromroots budget 1, junk-proof verify", nA)
 		for _, tr := range trs {
 			BFS(c, &PartialFamily{Nmax: nA, TR: tr, UndoBud: 1, FRBud: 1, Junk: true, Prop: "C09"}, 0)
+		}
+		nO := pick(c, 3, 4)
+		bases := pick(c, []uint64{32, 1<<31 + 1, 1<<62 + 1, 1<<63 - 4}, []uint64{31, 32, 33, 1<<31 - 1, 1 << 31, 1<<31 + 1, 1<<32 - 1, 1<<32 + 1, 1<<62 - 1, 1<<62 + 1, 1<<63 - 4})
+		c.Cov.Bound["offset_start"] = fmt.Sprintf("NewMapPollardFromRoots at Base in %v, Nmax=%d added leaves, undo budget 1", bases, nO)
+		for _, b := range bases {
+			if c.Expired() {
+				break
+			}
+			BFS(c, &PartialFamily{Nmax: nO, TR: 63, UndoBud: 1, Junk: true, Prop: "C09", Base: b}, 0)
 		}
 		nB := pick(c, 5, 6)
 		c.Cov.Bound["B"] = fmt.Sprintf("Nmax=%d forward only (no undo), sets of size<=2", nB)
